@@ -91,7 +91,7 @@ def run(facts, res):
                 if l.kind == "variant" and l.variants == {"Some"}:
                     pt = peel(l.term)
                     if pt[0] == "call" and callee_name(pt) == "next":
-                        names = [callee_name(x) for x in walk(pt) if x[0] == "call"]
+                        names = [callee_name(x) for x in walk(pt, False) if x[0] == "call"]
                         if any(x[0] == "field" and x[2] == "documents" for x in walk(pt)) and cfg.is_loop_header(pt[3]) and \
                                 not (set(names) & {"take", "skip", "filter", "step_by", "take_while", "skip_while"}):
                             whole = True
@@ -127,7 +127,7 @@ def run(facts, res):
         whole = False
         for s in s_tree:
             recv = arg_term(u, s.term, 0, 30)
-            names = [callee_name(x) for x in walk(recv) if x[0] == "call"]
+            names = [callee_name(x) for x in walk(recv, False) if x[0] == "call"]
             if any(x[0] == "field" and x[2] == "documents" for x in walk(recv)) and not (set(names) & {"take", "skip", "filter", "step_by"}):
                 whole = True
         ret_ok = False
@@ -265,7 +265,7 @@ def run(facts, res):
         if not w_ok:
             # `self.stage.iter().map(..).collect::<Map<_, _>>()`
             rt_ = du_of(dst).local_term(0, 24)
-            names_ = {callee_name(x) for x in walk(rt_) if x[0] == "call"}
+            names_ = {callee_name(x) for x in walk(rt_, False) if x[0] == "call"}
             w_ok = "collect" in names_ and any(x[0] == "field" and x[2] == "stage" for x in walk(rt_)) and \
                 not (names_ & {"filter", "take", "skip", "step_by", "filter_map", "take_while", "skip_while"})
         r_ins = [(bi, t) for bi, t in drp.calls() if t.callee is not None and t.callee.name == "insert" and field_path(arg_term(drp, t, 0))[0][:1] == ["stage"]]
@@ -340,7 +340,7 @@ def run(facts, res):
     hs = facts.body("melda::Melda::has_staging")
     if hs is not None:
         t = du_of(hs).local_term(0, 20)
-        names = [callee_name(x) for x in walk(t) if x[0] == "call"]
+        names = [callee_name(x) for x in walk(t, False) if x[0] == "call"]
         ok = "any" in names and any(x[0] == "field" and x[2] == "documents" for x in walk(t)) and not (set(names) & {"take", "skip", "filter", "step_by"})
         cbs = facts.closures_of(hs.path)
         ok = ok and any(tt.callee is not None and tt.callee.target() == "revisiontree::RevisionTree::has_staging" for cb in cbs for _, tt in cb.calls())
